@@ -3,6 +3,8 @@ package otto
 import (
 	"encoding/json"
 	"reflect"
+	"unicode"
+	"unicode/utf8"
 )
 
 // FIXME Make a note about not being able to modify a struct unless it was
@@ -130,7 +132,13 @@ func validGoStructName(name string) bool {
 	if name == "" {
 		return false
 	}
-	return 'A' <= name[0] && name[0] <= 'Z' // TODO What about Unicode?
+	if name[0] < utf8.RuneSelf {
+		return 'A' <= name[0] && name[0] <= 'Z'
+	}
+	// Go's rule for exported identifiers: the first character is an upper-case
+	// letter of any script (type T struct{ Éclair int }).
+	r, _ := utf8.DecodeRuneInString(name)
+	return unicode.IsUpper(r)
 }
 
 func goStructEnumerate(obj *object, all bool, each func(string) bool) {
